@@ -130,10 +130,11 @@ class RecordSpec:
 
 
 class VcfContent:
-    def __init__(self, sample, contigs, records):
+    def __init__(self, sample, contigs, records, indexed=False):
         self.sample = sample
         self.contigs = list(contigs)  # [(name, length or None)]
         self.records = list(records)  # [RecordSpec] in file order
+        self.indexed = indexed  # stands for a bgzip-compressed file with a .tbi/.csi next to it
 
     def text(self):
         lines = ["##fileformat=VCFv4.2"]
@@ -149,21 +150,35 @@ class VcfContent:
 
 
 class VariantFile:
-    """Stands for pysam.VariantFile(path) opened for reading an unindexed plain VCF."""
+    """Stands for pysam.VariantFile(path) opened for reading a plain VCF (content.indexed False) or a bgzipped, tabix-indexed
+    one (content.indexed True: .index is set and fetch(contig, start, stop) returns the overlapping records in file order)."""
 
     def __init__(self, path, *a, **k):
         content = FILES[path]
         self._content = content
         self.filename = path.encode()
         self.header = Header([content.sample], [Contig(n, l) for n, l in content.contigs])
-        self.index = None
+        self.index = object() if getattr(content, "indexed", False) else None
         self._records = [r.to_record([content.sample]) for r in content.records]
 
     def __iter__(self):
         return iter(self._records)
 
-    def fetch(self, *a, **k):
-        raise ValueError("fetch requires an index")
+    def fetch(self, contig=None, start=None, stop=None, *a, **k):
+        if self.index is None:
+            raise ValueError("fetch requires an index")
+        if contig not in [n for n, _ in self._content.contigs]:
+            raise ValueError("invalid contig `%s`" % contig)
+        lo = 0 if start is None else start
+        out = []
+        for spec, rec in zip(self._content.records, self._records):
+            if spec.chrom != contig:
+                continue
+            b = int(spec.start)
+            e = b + len(spec.ref)
+            if e > lo and (stop is None or b < stop):
+                out.append(rec)
+        return iter(out)
 
     def close(self):
         pass
